@@ -31,10 +31,25 @@ def resolve_width(spec):
     return (m + v) if kind == "delta" else max(m, v), m
 
 
-def render_lines(renderable, W, measure=False, **console_kw):
+class EncFile(io.StringIO):
+    """A text stream that reports an encoding, as a real file or terminal does (the console derives ascii_only and safe boxes from it)."""
+
+    def __init__(self, encoding):
+        super().__init__()
+        self._enc = encoding
+
+    @property
+    def encoding(self):
+        return self._enc
+
+
+ENCODINGS = [None, None, None, "utf-8", "ascii", "latin-1", "cp1252"]
+
+
+def render_lines(renderable, W, measure=False, encoding=None, **console_kw):
     from rich.console import Console
 
-    kw = dict(file=io.StringIO(), width=W, height=25, color_system="truecolor", force_terminal=True, legacy_windows=False, _environ={})
+    kw = dict(file=EncFile(encoding) if encoding else io.StringIO(), width=W, height=25, color_system="truecolor", force_terminal=True, legacy_windows=False, _environ={})
     kw.update(console_kw)
     con = sut(Console, **kw)
     segs = sut(lambda: list(con.render(renderable, con.options)))
@@ -47,18 +62,24 @@ class Trees(Part):
     name = "trees"
     rule = ("trees of text|table|panel|padding|align|constrain|styled|columns|tree|rule|bar|progress_bar|group|cast|bare nodes, every listed layout option, "
             "contents over narrow/wide/zero-width characters with newlines; W = structural minimum + {0,1,2,3,5,8,13} (about half of the cases), round "
-            "numbers, or uniform up to 200; non-trivial = nesting depth >= 2 and (W - minimum <= 3, or a wide/zero-width character present)")
+            "numbers, or uniform up to 200; x stream encoding (none / utf-8 / ascii / latin-1 / cp1252: ascii_only boxes and guides); checked on console.render() and on what print() "
+            "writes; non-trivial = nesting depth >= 2 and (W - minimum <= 3, or a wide/zero-width character present)")
     budget = {"quick": (16, 400), "thorough": (16, 8000)}
     chunk = 200
 
     def strategy(self, tier):
-        return st.builds(lambda t, w: {"tree": t, "w": w}, GT.node(0, "free"), width_choice())
+        return st.builds(lambda t, w, e: {"tree": t, "w": w, "enc": e}, GT.node(0, "free"), width_choice(), st.sampled_from(ENCODINGS))
 
     def check(self, spec, ctx):
+        from ..oracles import sgr as SGR
+
         tree = spec["tree"]
         W, m = resolve_width(spec)
         r = sut(GT.build, tree)
-        con, lines = render_lines(r, W)
+        enc = spec.get("enc")
+        con, lines = render_lines(r, W, encoding=enc)
+        if enc:
+            ctx.cls("encoding-" + enc)
         depth = GT.depth_of(tree)
         kinds = GT.kinds_of(tree)
         for k in kinds:
@@ -70,7 +91,16 @@ class Trees(Part):
             if w > W:
                 root = tree["k"]
                 culprit = "pbar-unterminated" if GT.has_unterminated_sequence(tree) else ("leading" if any(_has_leading(tree)) else root)
-                ctx.violation("width", "C01/width/%s" % culprit, "line %d is %d cells wide with %d available (structural minimum %d): %r\ntree=%r" % (i, w, W, m, ln, tree))
+                ctx.violation("width", "C01/width/%s" % culprit, "line %d is %d cells wide with %d available (structural minimum %d, encoding %r): %r\ntree=%r" % (i, w, W, m, enc, ln, tree))
+                return
+        # what print() writes (after the console's own post-processing of the rendered text) obeys the same bound
+        r2 = sut(GT.build, tree)
+        sut(con.print, r2)
+        written = SGR.visible(con.file.getvalue())
+        for i, ln in enumerate(written.split("\n")):
+            w = OC.width(ln)
+            if w > W:
+                ctx.violation("width", "C01/width/written-%s" % tree["k"], "print() wrote line %d with %d cells on a console %d wide (encoding %r): %r\ntree=%r" % (i, w, W, enc, ln, tree))
                 return
         if depth >= 2 and (W - m <= 3 or GT.has_wide(tree)):
             ctx.nontrivial = True
